@@ -13,7 +13,14 @@ import (
 	"golang.org/x/tools/go/ssa/ssautil"
 )
 
-const repoDir = "/repo"
+// repoDir is the tree under check: always /repo for the registered commands; GOSX_REPO points the
+// engine at a scratch worktree when a seeded change is tried out while /repo itself is in use.
+var repoDir = func() string {
+	if d := os.Getenv("GOSX_REPO"); d != "" {
+		return d
+	}
+	return "/repo"
+}()
 
 var verifDir = "/verif"
 
